@@ -179,6 +179,7 @@ func runC15(rec *vk.Rec, ci int, self string) {
 	defer os.RemoveAll(dir)
 	tried := map[string]c15Msg{}
 	acked := map[string]bool{}
+	reused, reusedAcked := "", false
 	var plan []string
 	kills, totalAck := 0, 0
 	fail := func(kind, d string) {
@@ -237,7 +238,16 @@ func runC15(rec *vk.Rec, ci int, self string) {
 			case strings.HasPrefix(line, "TRY "):
 				p := strings.SplitN(line, " ", 5)
 				if len(p) == 5 {
-					tried[p[1]] = c15Msg{p[2], p[3], p[4]}
+					nm := c15Msg{p[2], p[3], p[4]}
+					if old, dup := tried[p[1]]; dup && old != nm && reused == "" {
+						// the same id handed out for two different messages (e.g. by two lives of the process): the second
+						// store overwrites the first under its key
+						reused = fmt.Sprintf("id %s was given to %v and, later, to %v", p[1], old, nm)
+						if acked[p[1]] {
+							reusedAcked = true
+						}
+					}
+					tried[p[1]] = nm
 				}
 			case strings.HasPrefix(line, "ACK "):
 				id := strings.TrimPrefix(line, "ACK ")
@@ -279,6 +289,11 @@ func runC15(rec *vk.Rec, ci int, self string) {
 		totalAck += acks
 		plan = append(plan, fmt.Sprintf("%s(w%d):%d", []string{"kill-after-acks", "kill-at-instant", "clean-stop"}[mode], writers, acks))
 		rec.Inc("cycles_" + []string{"kill_after_acks", "kill_at_instant", "clean_stop"}[mode])
+	}
+	if reused != "" && reusedAcked {
+		fail("acknowledged-message-lost", "an acknowledged message was overwritten because its id was handed out again: "+reused)
+		rec.Case(vk.Hash(strings.Join(plan, ","), "idreuse"), true)
+		return
 	}
 	// a torn ACK line: "ACK <prefix of id>" — acknowledged ids must be complete ids that were tried; handled above.
 	// read back in a fresh process
